@@ -346,7 +346,7 @@ func c02Signature(t c02Case, impl, model Sexp) string { return "" }
 
 func init() {
 	props["C02"] = func(c *Ctx) {
-		c.Res.Rule = "case = inventory (0-6 containers, shared/prefix names, images, states, Docker label keys needing sanitisation, no sanitisation collisions) x selector (0-3 matchers over built-in, sanitised and absent labels; = != =~ !~; regexes: literal, proper prefix, prefix.*, random) x window (fractional seconds; instant or range), evaluated through logql.Parse + Engine.Eval + dockerlog.Querier over a fake Docker client; non-trivial = selected set is a proper non-empty subset of the inventory; distinct by request line"
+		c.Res.Rule = "case = inventory (0-6 containers, shared/prefix names, images, states, Docker label keys needing sanitisation, no sanitisation collisions) x selector (0-3 matchers over built-in, sanitised and absent labels; = != =~ !~; regexes: literal, proper prefix, prefix.*, random) x window (fractional seconds; instant or range; and, separately, the window asked for under count_over_time with range 1-300 s and offset 0-3600 s), evaluated through logql.Parse + Engine.Eval + dockerlog.Querier over a fake Docker client; non-trivial = selected set is a proper non-empty subset of the inventory; distinct by request line"
 		spec := &Spec[c02Case]{
 			What: "Docker.select/getLabels/logsWindow == Engine.Eval over dockerlog.Querier (opened ids, LogsOptions, per-line labels)",
 			Gen:  c02Gen,
@@ -372,5 +372,69 @@ func init() {
 			},
 		}
 		RunSpec(c, spec, c.Scale(4000, 150000))
+
+		// the window clause for metric queries: a range aggregation over [range] offset o evaluated from start
+		// to end reads the logs of [start - o - range, end - o]; the daemon must be asked for exactly that window
+		// in whole seconds (Docker.logsWindow of the shifted bounds)
+		type mwCase struct {
+			Base    c02Case `json:"base"`
+			RangeS  int64   `json:"range_s"`
+			OffsetS int64   `json:"offset_s"`
+			StepS   int64   `json:"step_s"`
+		}
+		shifted := func(t mwCase) c02Case {
+			b := t.Base
+			b.Sel = nil
+			b.Start -= (t.RangeS + t.OffsetS) * 1e9
+			b.End -= t.OffsetS * 1e9
+			return b
+		}
+		mw := &Spec[mwCase]{
+			What: "Docker.logsWindow of the shifted bounds == the window dockerlog.Querier asks for under a range aggregation with offset",
+			Gen: func(r *rand.Rand) mwCase {
+				t := mwCase{Base: c02Gen(r), RangeS: pick(r, []int64{1, 5, 60, 300}), OffsetS: pick(r, []int64{0, 0, 1, 30, 300, 3600}), StepS: pick(r, []int64{1, 15, 60})}
+				for len(t.Base.Inv) == 0 {
+					t.Base = c02Gen(r)
+				}
+				t.Base.Sel = nil
+				if t.Base.Instant {
+					t.StepS = 0
+				}
+				return t
+			},
+			Req: func(t mwCase) Sexp { return c02Req(shifted(t)) },
+			Impl: func(t mwCase) Sexp {
+				fd := &fakeDocker{Logs: c02Logs(t.Base)}
+				for _, ct := range t.Base.Inv {
+					fd.Inventory = append(fd.Inventory, ct.Docker())
+				}
+				q, err := dockerlog.NewQuerier(fd)
+				if err != nil {
+					return L(A("err"), A("newquerier"))
+				}
+				text := fmt.Sprintf(`%s(count_over_time({container_id=~".+"}[%ds]%s))`, pick(rand.New(rand.NewSource(t.RangeS+t.OffsetS)), []string{"sum", "count", ""}), t.RangeS,
+					map[bool]string{true: fmt.Sprintf(" offset %ds", t.OffsetS), false: ""}[t.OffsetS != 0])
+				if _, err := evalQuery(q, text, t.Base.Start, t.Base.End, timeDur(t.StepS*1e9), -1); err != nil {
+					return L(A("err"), A(errClassOf(err)))
+				}
+				since, until := "none", "none"
+				for _, id := range fd.OpenedSorted() {
+					o := fd.Options[id]
+					if since != "none" && (since != o.Since || until != o.Until) {
+						return L(A("err"), A("window-differs-between-containers"))
+					}
+					since, until = o.Since, o.Until
+				}
+				return L(A(since), A(until))
+			},
+			Equal: func(t mwCase, impl, model Sexp) bool {
+				return len(model.List) == 3 && len(impl.List) == 2 && impl.List[0].String() == model.List[1].String() && impl.List[1].String() == model.List[2].String()
+			},
+			Nontrivial: func(t mwCase, impl Sexp) bool { return t.OffsetS != 0 },
+			Tags: func(t mwCase, impl Sexp) []string {
+				return []string{fmt.Sprintf("c02:metric-window offset=%v", t.OffsetS != 0), fmt.Sprintf("c02:metric-window instant=%v", t.Base.Instant)}
+			},
+		}
+		RunSpec(c, mw, c.Scale(600, 20000))
 	}
 }
